@@ -12,6 +12,7 @@ structure DState where
   cfg : Cfg := {}
   budget : Int := 0
   items : List Item := []     -- reversed
+  arows : List ARow := []     -- reversed (agent cases)
   draws : List Nat := []
   ok : Bool := true
 
@@ -90,6 +91,91 @@ def renderRun (s : DState) : List String :=
   let es := (evs acts).toArray.qsort (fun a b => a.id < b.id) |>.toList
   errsOf acts ++ es.map showEv ++ (metricGroups s.cfg items s.budget s.draws).map showG
 
+/-! agent cases: per accounted metric, how many rows were kept with factor 1, kept with the metric's factor, dropped -/
+
+structure MSum where
+  metric : Int
+  n : Nat := 0
+  one : Nat := 0
+  sampled : Nat := 0
+  bits : Nat := 0
+  drop : Nat := 0
+
+def MSum.add (m : MSum) (e : Ev) : MSum :=
+  if !e.kept then { m with n := m.n + 1, drop := m.drop + 1 }
+  else if e.num == e.den && !e.isMax then { m with n := m.n + 1, one := m.one + 1 }
+  else { m with n := m.n + 1, sampled := m.sampled + 1, bits := sfBits e }
+
+def addSum (metric : Int) (e : Ev) : List MSum → List MSum
+  | [] => [({ metric := metric } : MSum).add e]
+  | m :: r => if m.metric == metric then m.add e :: r else m :: addSum metric e r
+
+def showMSum (m : MSum) : String :=
+  s!"am {m.metric} n={m.n} one={m.one} sf={m.sampled} bits={hex16 m.bits} drop={m.drop}"
+
+def renderAgent (s : DState) (shard minB sumB maxHalf : Int) : List String :=
+  let rows := s.arows.reverse
+  let budget := agentBudget shard minB sumB maxHalf
+  let acts := agentBucket s.cfg rows budget s.draws
+  let metricOf (id : Nat) : Int := ((rows.find? (fun r => r.item.id == id)).map (·.item.metric)).getD 0
+  let sums := (evs acts).foldl (fun acc e => addSum (metricOf e.id) e acc) []
+  let sorted := sums.toArray.qsort (fun a b => a.metric < b.metric) |>.toList
+  errsOf acts ++ sorted.map showMSum
+
+/-! host budget cases (calcHostMetricBudgets): the real code draws its budget roundings from an unseeded generator, so the
+    model is run for every round-up pattern of the first `k` roundings and the pattern that reproduces the observation is
+    printed (the all-floor pattern if none does) -/
+
+def hostLine (items : List Item) (draws : List Nat) (cfg : Cfg) (budget : Int) : String :=
+  let acts := runBucket cfg items budget draws
+  let es := (evs acts).toArray.qsort (fun a b => a.id < b.id) |>.toList
+  ",".intercalate (es.map (fun e => s!"{e.id}:{hostBudgetOf items e}"))
+
+def patternDraws (k : Nat) (p : Nat) : List Nat :=
+  (List.range k).map (fun i => if (p >>> i) % 2 == 1 then 0 else two53 - 1)
+
+def findPattern (items : List Item) (cfg : Cfg) (budget : Int) (k : Nat) (expected : String) : Nat → Nat → Option String
+  | 0, _ => none
+  | fuel + 1, p =>
+    if p ≥ 2 ^ k then none
+    else
+      let l := hostLine items (patternDraws k p ++ List.replicate 64 (two53 - 1)) cfg budget
+      if l == expected then some l else findPattern items cfg budget k expected fuel (p + 1)
+
+def renderHost (s : DState) (k : Nat) (expected : String) : List String :=
+  let items := s.items.reverse
+  let base := hostLine items (List.replicate (k + 64) (two53 - 1)) s.cfg s.budget
+  match findPattern items s.cfg s.budget k expected (2 ^ k) 0 with
+  | some l => ["hb " ++ l]
+  | none => ["hb " ++ base]
+
+/-! size estimate cases -/
+
+def parseVal (t : String) : Option ValDesc :=
+  match parseNatList? t with
+  | some [e, a, b, c, d, e2, f, g, h, i, j, k, l, m, n] =>
+    some { empty := e == 1, maxHostI := a == 1, maxHostS := b, minEqMax := c == 1, minHostI := d == 1, minHostS := e2, mcEqMax := f == 1,
+           mcHostI := g == 1, mcHostS := h, hllItems := i, hasDigest := j == 1, centroids := k, valueSet := l == 1,
+           minNonZero := m == 1, singleTL := n == 1 }
+  | _ => none
+
+def parseTop (t : String) : Option (Nat × ValDesc) :=
+  match t.splitOn ":" with
+  | [l, v] => do
+    let l ← l.toNat?
+    let v ← parseVal v
+    some (l, v)
+  | _ => none
+
+def renderSize (toks : List String) : List String :=
+  match toks with
+  | tags :: stags :: ts :: tail :: tops =>
+    match parseNatList? tags, parseNatList? stags, parseVal tail, tops.mapM parseTop with
+    | some tags, some stags, some tail, some tops =>
+      [s!"sz key={keyTLSize tags stags (ts == "1")} item={itemTLSize tail tops} row={itemRowSize stags tail tops}"]
+    | _, _, _, _ => ["bad-op"]
+  | _ => ["bad-op"]
+
 def dstep (s : DState) (toks : List String) : DState × List String :=
   match toks with
   | "cfg" :: rest =>
@@ -105,6 +191,20 @@ def dstep (s : DState) (toks : List String) : DState × List String :=
     | some ds => ({ s with draws := ds }, [])
     | none => ({ s with ok := false }, ["bad-op"])
   | ["run"] => if s.ok then (s, renderRun s) else (s, ["bad-op"])
+  | "aitem" :: b :: rest =>
+    match parseItem rest, b with
+    | some it, "1" => ({ s with arows := { item := it, bypass := true } :: s.arows }, [])
+    | some it, "0" => ({ s with arows := { item := it, bypass := false } :: s.arows }, [])
+    | _, _ => ({ s with ok := false }, ["bad-op"])
+  | ["agentrun", a, b, c, d] =>
+    match a.toInt?, b.toInt?, c.toInt?, d.toInt? with
+    | some a, some b, some c, some d => if s.ok then (s, renderAgent s a b c d) else (s, ["bad-op"])
+    | _, _, _, _ => (s, ["bad-op"])
+  | ["hostrun", k, expected] =>
+    match k.toNat? with
+    | some k => if s.ok && k ≤ 10 then (s, renderHost s k expected) else (s, ["bad-op"])
+    | none => (s, ["bad-op"])
+  | "tlsize" :: rest => (s, renderSize rest)
   | _ => ({ s with ok := false }, ["bad-op"])
 
 end SH.Sampler
